@@ -495,11 +495,11 @@ pub fn run_c12(tier: &str, seed: u64, replay: Option<&str>) -> (Meta, Report) {
 // ------------------------------------------------------------------------------------ C13a
 
 #[derive(Clone, Debug, PartialEq)]
-enum Node {
+pub enum Node {
     File(Vec<u8>),
     Dir,
 }
-type Model = BTreeMap<String, Node>;
+pub type Model = BTreeMap<String, Node>;
 
 fn model_initial() -> Model {
     let mut m = Model::new();
@@ -552,7 +552,7 @@ fn is_dir(m: &Model, p: &str) -> bool {
 }
 
 /// CFDP semantics of one request on the model; returns the expected status.
-fn model_apply(m: &mut Model, req: &FileStoreRequest) -> FileStoreStatus {
+pub fn model_apply(m: &mut Model, req: &FileStoreRequest) -> FileStoreStatus {
     use FileStoreStatus as S;
     let a = req.first_filename.as_str().to_string();
     let b = req.second_filename.as_str().to_string();
